@@ -64,7 +64,12 @@ func normalizeLimits(limits Limits) Limits {
 func (l *Loader) SetLimits(limits Limits) {
 	l.mu.Lock()
 	defer l.mu.Unlock()
-	l.limits = normalizeLimits(limits)
+	limits = normalizeLimits(limits)
+	if limits != l.limits {
+		// a cached file was admitted under the old limits (a cache hit does not look at the file again)
+		l.cache = make(map[string]parsedFile)
+	}
+	l.limits = limits
 }
 
 func (l *Loader) getLimits() Limits {
